@@ -25,15 +25,15 @@ def extract(g, X):
 
     def revision_literals():
         b = X.fn_body(file_rs, "write_revision")
-        loop = re.search(r"for\s*&\(&id.*?\{(.*?)\n        \}", b, flags=re.S).group(1)
-        hdr = re.search(r'writeln!\(self\.backend,\s*"([^"]*)",\s*id,\s*gen\)', loop).group(1)
-        end = re.search(r'primitive\.serialize\(&mut self\.backend\)\?;\s*writeln!\(self\.backend,\s*"([^"]*)"\)', loop).group(1)
-        rel = 1 if re.search(r"let\s+pos\s*=\s*self\.backend\.len\(\)\s*-\s*self\.start_offset\s*;", loop) else 0
-        xrel = 1 if re.search(r"let\s+xref_pos\s*=\s*self\.backend\.len\(\)\s*-\s*self\.start_offset\s*;", b) else 0
-        xhdr = re.search(r'writeln!\(self\.backend,\s*"([^"]*)",\s*xref_promise\.get_inner\(\)\.id,\s*0\)', b).group(1)
-        xend = re.search(r'xref_and_trailer\.serialize\(&mut self\.backend\)\?;\s*writeln!\(self\.backend,\s*"([^"]*)"\)', b).group(1)
-        tail = re.search(r'write!\(self\.backend,\s*"([^"]*)",\s*xref_pos\)', b).group(1)
-        wsz = re.search(r"write_stream\(xref_promise\.get_inner\(\)\.id\s+as\s+usize\s*\+\s*(\d+)\)", b).group(1)
+        loop = re.search(r"for\s*&\(&\w+.*?\{(.*?)\n        \}", b, flags=re.S).group(1)
+        hdr = re.search(r'writeln!\(self\.backend,\s*"([^"]*)",\s*\w+,\s*\w+\)', loop).group(1)
+        end = re.search(r'\w+\.serialize\(&mut self\.backend\)\?;\s*writeln!\(self\.backend,\s*"([^"]*)"\)', loop).group(1)
+        rel = 1 if re.search(r"let\s+\w+\s*=\s*self\.backend\.len\(\)\s*-\s*self\.start_offset\s*;", loop) else 0
+        xrel = 1 if re.search(r"\}\s*let\s+\w+\s*=\s*self\.backend\.len\(\)\s*-\s*self\.start_offset\s*;", b) else 0
+        xhdr = re.search(r'writeln!\(self\.backend,\s*"([^"]*)",\s*\w+\.get_inner\(\)\.id,\s*0\)', b).group(1)
+        xend = re.findall(r'\w+\.serialize\(&mut self\.backend\)\?;\s*writeln!\(self\.backend,\s*"([^"]*)"\)', b)[-1]
+        tail = re.search(r'write!\(self\.backend,\s*"([^"]*)",\s*\w+\)', b).group(1)
+        wsz = re.search(r"write_stream\(\w+\.get_inner\(\)\.id\s+as\s+usize\s*\+\s*(\d+)\)", b).group(1)
         pre, post = tail.split("{}")
         # "{} {} obj" + newline of writeln!
         return (cbytes(rust_str(hdr.replace("{}", "")) + b"\n"), cbytes(rust_str(end) + b"\n"), str(rel), str(xrel),
@@ -45,9 +45,19 @@ def extract(g, X):
 
     def rollback():
         b = X.fn_body(file_rs, "save")
-        ok = re.search(r"if\s+let\s+Err\(e\)\s*=\s*self\.write_revision\(&trailer_dict\)\s*\{\s*self\.backend\.truncate\(backend_len\);\s*self\.refs\.truncate\(num_refs\);\s*return\s+Err\(e\);", b)
-        before = re.search(r"let\s+backend_len\s*=\s*self\.backend\.len\(\);\s*let\s+num_refs\s*=\s*self\.refs\.len\(\);\s*if\s+let\s+Err", b)
-        return "1" if ok and before else "0"
+        m = re.search(r"if\s+let\s+Err\((\w+)\)\s*=\s*self\.write_revision\(&\w+\)\s*\{(.*?)return\s+Err\(\1\);", b, flags=re.S)
+        if not m:
+            return "0"
+        t1 = re.search(r"self\.backend\.truncate\((\w+)\);", m.group(2))
+        t2 = re.search(r"self\.refs\.truncate\((\w+)\);", m.group(2))
+        if not (t1 and t2):
+            return "0"
+        head = b[:m.start()]
+        d1 = re.search(r"let\s+" + t1.group(1) + r"\s*=\s*self\.backend\.len\(\);", head)
+        d2 = re.search(r"let\s+" + t2.group(1) + r"\s*=\s*self\.refs\.len\(\);", head)
+        # both snapshots are taken after Trailer::to_dict and before write_revision
+        td = re.search(r"\.to_dict\(self\)\?;", head)
+        return "1" if d1 and d2 and td and d1.start() > td.end() and d2.start() > td.end() else "0"
     g.attempt([("sto_save_rolls_back", "N")], "file.rs:save rollback", rollback)
 
     def update_arms():
@@ -58,9 +68,9 @@ def extract(g, X):
             t = m.group(1)
             if "panic!" in t:
                 arms[name] = 0
-            elif re.search(r"PlainRef\s*\{\s*id:\s*old\.id,\s*gen:\s*gen_nr\s*\}", t):
+            elif re.search(r"PlainRef\s*\{\s*id:\s*\w+\.id,\s*gen:\s*gen_nr\s*\}", t):
                 arms[name] = 1
-            elif re.search(r"PlainRef\s*\{\s*id:\s*old\.id,\s*gen:\s*0\s*\}", t):
+            elif re.search(r"PlainRef\s*\{\s*id:\s*\w+\.id,\s*gen:\s*0\s*\}", t):
                 arms[name] = 2
             else:
                 arms[name] = 9
